@@ -15,7 +15,7 @@ from vf.common import wall_budget, Run, main_wrapper, run_pool, seed
 
 PID = "C02"
 CELLS = ["interval", "triangle", "quadrilateral", "tetrahedron", "hexahedron"]
-FACET_TYPES = ("exterior_facet", "interior_facet", "vertex")
+FACET_TYPES = ("exterior_facet", "interior_facet", "vertex", "ridge")
 
 
 def run_case(case):
@@ -53,6 +53,13 @@ def curated(tier):
         add("dS_piola", cell, p={"family": "N1curl"})
     add("facet_plain", "prism")
     add("facet_plain", "prism", p={"degree": 2})
+    # mixed-dimensional forms (functions on the facet mesh), sub-meshes of codimension 0, ridge integrals
+    for cell in ("triangle", "quadrilateral", "tetrahedron", "hexahedron"):
+        add("mixed_dim_codim1", cell, p={"which": 0})
+        add("mixed_dim_codim1", cell, p={"which": 1})
+        add("submesh_codim0", cell, p={"which": 1})
+        add("ridge_form", cell, p={"which": 0})
+        add("ridge_form", cell, p={"which": 1})
     add("facet_flux", "triangle", gdim=3)
     add("dg_jump", "triangle", cdeg=2)
     add("dg_jump", "interval", cdeg=2, gdim=2)
@@ -100,6 +107,7 @@ def main(tier, replay=None):
             "UFL symbolic lowering and basix tabulation/quadrature/topology are trusted",
             "oracle's entity maps, reference normals and permutation semantics are written from basix topology/geometry, not from ffcx",
             "prism/pyramid interior facets and facet normals on prisms are rejected by ffcx and are not exercised here",
+            "mixed-dimensional forms: only values (no derivatives) of functions living on the facet mesh; they are evaluated at the unpermuted reference-facet points",
         ],
     )
     cases = curated(tier)
